@@ -325,17 +325,22 @@ def emptyArr (c : Cfg) (a : AllocId) : Arr := ⟨a, none, emptyExts c.dim, 0⟩
 
 /-! ### operations -/
 
-/-- "allocate in the mem-initialiser, construct the elements in the body" (array.hpp:251-531): returns the base pointer.
-    As the code stands, an exception from the body leaves the block allocated (the destructor of a not fully constructed
-    object does not run).  `fx6`: the body is wrapped in `try { … } catch(...) { deallocate(); throw; }`. -/
-def build (c : Cfg) (a : AllocId) (n : Nat) (construct : Bool) (rowLen : Nat := 0) : M (Option Nat) := do
+/-- allocate `n` elements and construct them; if a construction throws (the algorithm has rolled back what it built) the
+    block is returned before the exception propagates — the shape of every repaired operation -/
+def buildSafe (c : Cfg) (a : AllocId) (n : Nat) (construct : Bool) : M (Option Nat) := do
   let p ← allocate a n
-  -- fx6 also adds the missing rollback of completed rows to the nested `uninitialized_copy` (array_ref.hpp:3770-3780)
-  let body := constructAll c p n (if c.fx6 then 0 else rowLen)
-  if construct then
-    if c.fx6 then tryCatch body (do deallocate c a p n; rethrow)
-    else body
+  if construct then tryCatch (constructAll c p n) (do deallocate c a p n; rethrow)
   pure p
+
+/-- "allocate in the mem-initialiser, construct the elements in the body" (array.hpp:257-538): returns the base pointer.
+    As the code stood, an exception from the body left the block allocated (the destructor of a not fully constructed
+    object does not run).  `fx6`: the body is wrapped in `construct_or_deallocate_` (array.hpp:199-213), and the nested
+    `uninitialized_copy` (array_ref.hpp) rolls back completed rows. -/
+def build (c : Cfg) (a : AllocId) (n : Nat) (construct : Bool) (rowLen : Nat := 0) : M (Option Nat) :=
+  if c.fx6 then buildSafe c a n construct else do
+    let p ← allocate a n
+    if construct then constructAll c p n rowLen
+    pure p
 
 /-- `clear()` array.hpp:560-565: destroy, deallocate, layout := empty (base_ is left as it is) -/
 def clearArr (c : Cfg) (i : Nat) (x : Arr) : M Arr := do
@@ -499,8 +504,7 @@ def opAssignCopy (c : Cfg) (i j : Nat) : M Unit := do
       if c.fx7 then do
         setSlot i (some x2)
         readCells c y.base y.n
-        let p ← allocate x2.alloc y.n
-        tryCatch (constructAll c p y.n) (do deallocate c x2.alloc p y.n; rethrow)
+        let p ← buildSafe c x2.alloc y.n true
         setSlot i (some { x2 with base := p, ext := y.ext, n := y.n })
       else do
         let x3 : Arr := { x2 with ext := y.ext, n := y.n }
@@ -539,17 +543,20 @@ def opReextent (c : Cfg) (i : Nat) (es : List Ext) (fill : Bool) : M Unit := do
   | some x =>
     if extsEq x.ext es then pure () else do
       let n := nElems es
-      let p ← allocate x.alloc n
       let doCtor := fill || !c.trivCtor
       let offs := (posIn (reported es) x.ext).filter (· < n)
-      if c.fx8 then do
-        if doCtor then tryCatch (constructAll c p n) (do deallocate c x.alloc p n; rethrow)
-        tryCatch (do readCells c x.base (if offs.isEmpty then 0 else x.n); assignAll c p offs)
-                 (do (if doCtor then destroyAll c p n else pure ()); deallocate c x.alloc p n; rethrow)
-      else do
-        if doCtor then constructAll c p n
-        readCells c x.base (if offs.isEmpty then 0 else x.n)
-        assignAll c p offs
+      let p ←
+        if c.fx8 then do
+          let p ← buildSafe c x.alloc n doCtor
+          tryCatch (do readCells c x.base (if offs.isEmpty then 0 else x.n); assignAll c p offs)
+                   (do destroyAll c p n; deallocate c x.alloc p n; rethrow)
+          pure p
+        else do
+          let p ← allocate x.alloc n
+          if doCtor then constructAll c p n
+          readCells c x.base (if offs.isEmpty then 0 else x.n)
+          assignAll c p offs
+          pure p
       destroyAll c x.base x.n
       deallocate c x.alloc x.base x.n
       setSlot i (some { x with base := p, ext := reported es, n := n })
@@ -564,8 +571,7 @@ def opReextentRv (c : Cfg) (i : Nat) (es : List Ext) : M Unit := do
     if c.fx7 then do
       let x1 ← clearArr c i x
       let n := nElems es
-      let p ← allocate x1.alloc n
-      if !c.trivCtor then tryCatch (constructAll c p n) (do deallocate c x1.alloc p n; rethrow)
+      let p ← buildSafe c x1.alloc n (!c.trivCtor)
       setSlot i (some { x1 with base := p, ext := reported es, n := n })
     else do
       destroyAll c x.base x.n
@@ -595,8 +601,7 @@ def opAssignFill (c : Cfg) (i : Nat) (es : List Ext) : M Unit := do
       let x1 ← clearArr c i x
       let n := nElems es
       if c.fx7 then do
-        let p ← allocate x1.alloc n
-        tryCatch (constructAll c p n) (do deallocate c x1.alloc p n; rethrow)
+        let p ← buildSafe c x1.alloc n true
         setSlot i (some { x1 with base := p, ext := reported es, n := n })
       else do
         let x2 : Arr := { x1 with ext := reported es, n := n }
